@@ -284,3 +284,91 @@ def install(eng):
     np["repeat"] = Ext("np.repeat", lambda e, v, m, axis=None: v)   # only the shapes matter inside residual_t / slo
     eng.externals["math"] = X.Ext("math", dict(eng.externals["math"].fn))
     eng.attr_hooks[("NArr", "shape")] = None
+
+
+# ------------------------------------------------------------------------------------------
+# estimate_sobolev: the symmetric accumulation ("each pair is evaluated once, by the element with the smaller index, and added
+# to both") for three elements on a path graph 0 ~ 1 ~ 2, for every assignment of distinct global indices
+
+import itertools as _it
+
+PT = z3.Function("PATCH_TIME", I, I, R)       # patch value of the unordered pair (smaller glob_idx, larger glob_idx)
+PSP = z3.Function("PATCH_SPACE", I, I, R)
+NBRS = {0: [1], 1: [0, 2], 2: [1]}
+
+
+def sc_estimate_sobolev(eng):
+    scen = []
+    for perm in _it.permutations((3, 5, 8)):
+        def build(eng, perm=perm):
+            elems = [Obj("Element", {"__module__": MESH, "glob_idx": perm[k], "ghost_k": k}, label="E%d" % k) for k in range(3)]
+            ee = Obj("ErrorEstimator", {"__module__": EE, "cache_dir": None}, label="EE")
+            eng.ghost.update(dict(elems=elems, perm=perm))
+            return {"self": ee, "elems": VList(elems), "residual": Ext("residual", lambda e, *a: None), "use_mp": False}
+        scen.append(dict(label="glob_idx={}".format(perm), args=build))
+    return scen
+
+
+def shortcut_result(fn):
+    """contract of sobolev_time / sobolev_space with nbrs_symmetry=True: the pairs (self and neighbours) whose other index is
+    not smaller than the element's own, each with its patch value; first component their sum"""
+    def res(eng, base):
+        env = eng.ghost_call_env
+        e = env.lookup("elem")
+        if env.lookup("nbrs_symmetry") is not True:
+            raise OutsideSubset("accumulation contract expects nbrs_symmetry=True")
+        elems = eng.ghost["elems"]
+        k = e.fields["ghost_k"]
+        gi = e.fields["glob_idx"]
+        ips = []
+        for j in [k] + NBRS[k]:
+            gj = elems[j].fields["glob_idx"]
+            if gi > gj:
+                continue
+            ips.append((gj, fn(z3.IntVal(min(gi, gj)), z3.IntVal(max(gi, gj)))))
+        tot = z3.RealVal(0)
+        for _, v in ips:
+            tot = tot + v
+        return (tot, VList(ips))
+    return res
+
+
+def s_accumulated(eng, result):
+    """sobolev[i] == (sum over the element and its time neighbours... of the time patches, same for space): every pair counted
+    once for each of its two elements, whatever the order of the global indices"""
+    elems = eng.ghost["elems"]
+    out = []
+    for k in range(3):
+        gi = elems[k].fields["glob_idx"]
+        want_t, want_s = z3.RealVal(0), z3.RealVal(0)
+        for j in [k] + NBRS[k]:
+            gj = elems[j].fields["glob_idx"]
+            a, b = z3.IntVal(min(gi, gj)), z3.IntVal(max(gi, gj))
+            want_t, want_s = want_t + PT(a, b), want_s + PSP(a, b)
+        row = result.rows[k]
+        out += [to_real(row[0]) == want_t, to_real(row[1]) == want_s]
+    return z3.And(*out)
+
+
+accumulation_contracts = [
+    Contract(EE + ":ErrorEstimator.sobolev_time", prop="C09", result=shortcut_result(PT)),
+    Contract(EE + ":ErrorEstimator.sobolev_space", prop="C09", result=shortcut_result(PSP)),
+    Contract(EE + ":ErrorEstimator.estimate_sobolev", props=["C09"], setup=sc_estimate_sobolev,
+             ensures=[("every indicator is the sum over the element and its neighbours of the pair's patch value (symmetry shortcut is "
+                       "transparent for every order of the global indices)", "accumulated(result)")]),
+]
+
+
+def install_accumulation(eng):
+    from . import estimators as EST
+    EST.install(eng)
+    eng.spec_funcs["accumulated"] = s_accumulated
+    np = eng.externals["np"].fn
+
+    def zeros(e, shape):
+        if isinstance(shape, tuple) and len(shape) == 2 and all(isinstance(x, int) for x in shape):
+            return EST.MatC([[0] * shape[1] for _ in range(shape[0])])
+        if isinstance(shape, int):
+            return Vec([0] * shape)
+        raise OutsideSubset("np.zeros shape")
+    np["zeros"] = Ext("np.zeros", zeros)
